@@ -1,1 +1,72 @@
-From Wesh Require Import Model.C16_Notify.
+(* C16 — Connectedness tracker and notify primitives: no deadlock, no missed update.
+   Statements only.  One transition system models internal/notify and its three clients
+   (they share one shape, see Model/C16_Notify.v); [reachable] closes the initial state of
+   ANY scenario (any data, any views, any number of calls of two waiters, any update sequence,
+   with or without cancellation) under any thread taking any enabled step.
+   GenFacts/NotifyFacts.v proves, from what the translator extracts from the current sources,
+   that the lock-order graph of the four files is acyclic and that the state mutex is the
+   notify locker. *)
+From Coq Require Import List NArith Bool.
+From Wesh Require Import Model.C16_Notify Proofs.C16_Notify.
+Import ListNotations.
+Open Scope N_scope.
+
+Theorem C16_no_missed_update :
+  forall d ca va cb vb keep ops wc s b,
+    reachable (init d ca va cb vb keep ops wc) s ->
+    w_pc (getw s b) = WParked -> diff (dat s) (w_view (getw s b)) <> [] ->
+    (u_pc s = UNmuLock /\ exists s1, ustep s = [s1] /\ u_pc s1 = UClose /\ w_pc (getw s1 b) = WParked) \/
+    (u_pc s = UClose /\ exists s1, ustep s = [s1] /\ w_pc (getw s1 b) = WRelock /\ w_ok (getw s1 b) = true).
+Proof. exact no_missed_update. Qed.
+
+Theorem C16_deadlock_free :
+  forall d ca va cb vb keep ops wc s,
+    reachable (init d ca va cb vb keep ops wc) s ->
+    (exists b, waiter_idle (w_pc (getw s b)) = false) \/ u_pc s <> UDone \/ canceller s = Some false ->
+    exists tid s', In s' (step s tid).
+Proof. exact deadlock_free. Qed.
+
+Theorem C16_mutual_exclusion :
+  forall d ca va cb vb keep ops wc s,
+    reachable (init d ca va cb vb keep ops wc) s ->
+    (forall b, holdsLw (w_pc (getw s b)) = true -> lockL s = WaiterO b) /\
+    (holdsLu (u_pc s) = true -> lockL s = UpdaterO).
+Proof. exact mutual_exclusion. Qed.
+
+Theorem C16_cancel_prompt :
+  forall d ca va cb vb keep ops wc s b,
+    reachable (init d ca va cb vb keep ops wc) s -> cancelled s = true -> w_pc (getw s b) <> WParked.
+Proof. exact cancel_prompt. Qed.
+
+Theorem C16_cancelled_wait_negative :
+  forall s b, w_pc (getw s b) = WRelock -> w_ok (getw s b) = false -> lockL s = Nobody ->
+              exists s', wstep s b = [s'] /\ w_pc (getw s' b) = WRet [] false.
+Proof. exact cancelled_wait_negative. Qed.
+
+(* a positive return carries exactly the keys whose tracked value differs from the view *)
+Theorem C16_exact_result :
+  forall s w upd okv, w_pc (check s w) = WRet upd okv ->
+                      upd = diff (dat s) (w_view w) /\ upd <> [] /\ okv = true.
+Proof. exact check_exact. Qed.
+
+(* an update that does not broadcast cannot change what any waiter would report *)
+Theorem C16_quiet_update_invisible :
+  forall d o d' view, app d o = (d', false) -> diff d' view = diff d view.
+Proof. exact app_quiet_same_diff. Qed.
+
+(* non-vacuity: a schedule in which the waiter parks, the updater associates a peer and
+   broadcasts, the waiter wakes and reports peer 1 *)
+Example C16_nonvacuous :
+  exists s,
+    fold_left (fun ss t => flat_map (fun s => step s t) ss)
+              [0; 0; 0; 0; 0; 0; 2; 2; 2; 2; 2; 2; 0; 0] [init [] 1 [] 0 [] true [UAssoc 1] false] = [s] /\
+    w_pc (wa s) = WDone /\ w_res (wa s) = [([1], true)].
+Proof. eexists. vm_compute. repeat split. Qed.
+
+Print Assumptions C16_no_missed_update.
+Print Assumptions C16_deadlock_free.
+Print Assumptions C16_mutual_exclusion.
+Print Assumptions C16_cancel_prompt.
+Print Assumptions C16_cancelled_wait_negative.
+Print Assumptions C16_exact_result.
+Print Assumptions C16_quiet_update_invisible.
